@@ -22,13 +22,28 @@ func (Engine) Properties() []string { return []string{"C10", "C12", "C13", "C14"
 
 func (e Engine) Execute(r *core.Run) (v *core.Violation) {
 	var fn func(*core.Run) *core.Violation
+	var fn2 func(*core.Run) (*core.Violation, func() *core.Violation)
+	// with the instrumented build every other run is a goroutine-level (Layer 2) run
+	l2 := layer2Available() && r.Index%2 == 1
+	if r.Cfgs("layer", "") == "1" {
+		l2 = false
+	}
+	if r.Cfgs("layer", "") == "2" {
+		l2 = layer2Available()
+	}
 	switch r.Property {
 	case "C13":
 		fn = runC13
 	case "C15":
 		fn = runC15
+		if l2 {
+			fn2 = runC15L2
+		}
 	case "C14":
 		fn = runC14
+		if l2 {
+			fn2 = runC14L2
+		}
 	case "C12":
 		fn = runC12
 	case "C20", "C10":
@@ -36,22 +51,33 @@ func (e Engine) Execute(r *core.Run) (v *core.Violation) {
 	default:
 		panic("provsim: no scenario for " + r.Property)
 	}
-	defer func() {
-		// the bubble panics when goroutines are still blocked at its end; that is only acceptable
-		// when the run already ended with a violation (e.g. a reported hang)
-		if p := recover(); p != nil {
+	var post func() *core.Violation
+	func() {
+		defer func() {
 			// goroutines of the code under test that are still blocked when the bubble ends (e.g. the
 			// bid engine's attribute service never completes its shutdown when a fetch was in flight,
 			// DESIGN.md S13) are not a verdict: they stay parked in the dead bubble; counted only.
-			msg := fmt.Sprint(p)
-			if strings.Contains(msg, "deadlock") {
-				r.Count("obs:goroutines-blocked-at-bubble-end")
-				return
+			if p := recover(); p != nil {
+				msg := fmt.Sprint(p)
+				if strings.Contains(msg, "deadlock") {
+					r.Count("obs:goroutines-blocked-at-bubble-end")
+					return
+				}
+				panic(p)
 			}
-			panic(p)
-		}
+		}()
+		synctest.Test(e.T, func(t *testing.T) {
+			if fn2 != nil {
+				r.Count("l2:runs")
+				v, post = fn2(r)
+			} else {
+				v = fn(r)
+			}
+		})
 	}()
-	synctest.Test(e.T, func(t *testing.T) { v = fn(r) })
+	if v == nil && post != nil {
+		v = post()
+	}
 	return v
 }
 
